@@ -39,6 +39,21 @@ type rtRig struct {
 	closed  bool
 }
 
+// swarmRtOpts draws, per run, runtime options that must not change anything the properties speak about:
+// no metric source positions (one run in three), runtime errors also logged (one in four).
+func swarmRtOpts(e *Env) []runtime.Option {
+	var o []runtime.Option
+	if e.Choose("knob", 3) == 0 {
+		o = append(o, runtime.OmitMetricSource())
+		e.Probe("opt_omit_metric_source")
+	}
+	if e.Choose("knob", 4) == 0 {
+		o = append(o, runtime.LogRuntimeErrors())
+		e.Probe("opt_log_runtime_errors")
+	}
+	return o
+}
+
 func newRtRig(e *Env, dir string, opts ...runtime.Option) *rtRig {
 	return newRtRigStore(e, dir, metrics.NewStore(), opts...)
 }
